@@ -354,6 +354,13 @@ class Env:
                         return base.elem
                     if w is not None:
                         return ('STRIDE-MISMATCH', base, w)
+                # x[n - W : n]: the entry below the cursor (the decrement follows the slice)
+                if lo is not None and hi is not None and isinstance(lo, ast.BinOp) and isinstance(lo.op, ast.Sub) and norm(lo.left) == norm(hi):
+                    w = self.const_int(lo.right)
+                    if w == len(base.elem):
+                        return base.elem
+                    if w is not None:
+                        return ('STRIDE-MISMATCH', base, w)
                 # end = n ; n -= W ; x[n:end]: the same slice with the upper bound snapshotted before the decrement
                 if isinstance(lo, ast.Name) and isinstance(hi, ast.Name):
                     snaps = [s_ for s_ in self.f.own_nodes() if isinstance(s_, ast.Assign) and len(s_.targets) == 1
